@@ -54,16 +54,6 @@ REWRITES = {
             "fn select_crc32c() -> Crc32c {\n    #[cfg(kani)]\n    if let Some(f) = verif_kani::crc_override() {\n        return f;\n    }",
         )
     ],
-    # device-level hook: lets write_buffer harnesses observe / fail `retire_extents` (source-level so that native
-    # replay sees the same behaviour)
-    "src/storage/io.rs": [
-        (
-            r"^    pub\(crate\) fn retire_extents\(&self, extents: &\[\(u64, usize\)\]\) -> Result<\(\)> \{[ \t]*$",
-            "    pub(crate) fn retire_extents(&self, extents: &[(u64, usize)]) -> Result<()> {\n"
-            "        #[cfg(kani)]\n        {\n            return verif_kani::hook_retire_extents(self, extents);\n        }\n        #[cfg(not(kani))]\n        {\n            self.retire_extents_verif_orig(extents)\n        }\n    }\n\n"
-            "    #[cfg_attr(kani, allow(dead_code))]\n    fn retire_extents_verif_orig(&self, extents: &[(u64, usize)]) -> Result<()> {",
-        )
-    ],
     "src/storage/free_space.rs": [
         (
             r"^use std::collections::BTreeMap;[ \t]*$",
